@@ -11,7 +11,7 @@ if os.path.exists(mp):
         if len(p) >= 4:
             matrix.setdefault(p[0], {})[p[1]] = p[2:]
 L = ['## s12  Seeded changes: which checks catch which', '',
-     'Each change under `/verif/seeded/<id>/` was written by a fresh sub-agent that saw only the text of one property and its own scratch',
+     'Each change under `/verif/seeded/<id>/` (`_s*`: first round, `_r*`: second round, launched after the checks had been strengthened on the first) was written by a fresh sub-agent that saw only the text of one property and its own scratch',
      'worktree of `/repo` (nothing from `/verif`); it compiles, passes the repository\'s test binaries (`tools/run_suite.sh`), and comes with a',
      'demonstration program that fails with the change and passes without it - all re-confirmed by `tools/confirm_seed.sh` before the change',
      'was kept (`confirm.json`).  The checks are run against a scratch copy of `/repo/include` with the patch applied (`tools/mut.sh`,',
@@ -24,10 +24,14 @@ for m in metas:
         det = sorted(c for c, r in mx.items() if r and r[0] != 'rc=0' and 'patch-failed' not in r[0])
         clean = sorted(c for c, r in mx.items() if r and r[0] == 'rc=0')
     L.append('| %s | %s | %s | %s | %s |' % (m['id'], m['breaks_property'], m['needs_to_manifest'].replace('|', '/'), ', '.join(det) or '-', (m.get('notes') or '').replace('|', '/')))
-L += ['', 'Summary of what the seeds changed in the machinery (all recorded above): 2 build failures of the recording build on legal C++ (typedef and',
-      '`std::max` coverage of the scalar substitution), 4 misses closed by widening an enumerated dimension (C11 coefficient-count moves, C20 three',
-      'segments, C12 functor arguments, C01_s1 -> partially shared re-updates in C10), 1 Python error turned into a reported violation (C08_s2),',
-      '1 "unexplored branch" turned into a replayed violation (C13_s2, alternative-path coverage loop).', '']
+L += ['', 'Summary.  Round 1 (38 changes): 31 caught by the first run of the target property\'s check; 2 could not be BUILT by the recording build (legal C++ outside the',
+      'scalar substitution: Eigen::ArrayXd, std::max(literal, scalar)) - substitution widened; 4 missed because an enumerated dimension was too narrow (C11 moves',
+      'between two coefficient counts above 8, C20 three segments, C12 functor arguments, C01_s1 needs a re-update with partially shared inputs: caught by C14 and, after',
+      'the extension, C10) - dimensions widened; 1 only flagged as an unexplored branch (C13_s2) - alternative-path coverage loop; 1 Python error (C08_s2) - fixed.',
+      'Round 2 (24 changes, written after those fixes, with hints towards rarely exercised API): 19 caught at the first run; 4 missed - C09_r2 (needs a length-3',
+      'reconfiguration history: quick tier had length 2), C10_r1 (three-step history mixing input sharing and an overload switch), C14_r1 (propagateGrad was not an observable',
+      'of the metamorphic relations; DIM 4), C04_r1 (a duration tolerance guard; durations are cut variables so the coverage loop could not steer) - all closed by',
+      'widening the enumerated histories / observables / shadow scales; 1 tool error (C17_r1: |x| of a quotient) - encoding fixed.  After the fixes all 62 are caught.', '']
 if matrix:
     allchecks = sorted({c for mx in matrix.values() for c in mx})
     L += ['Cross matrix (seeds for which the full row was run: every claimed check, quick tier; `x` = exit 1 with at least one VIOLATION line, `u` = exit 1 with only UNCONFIRMED/crash lines, `.` = exit 0):', '',
